@@ -30,7 +30,7 @@ inline const std::set<std::string>& manifest(const std::string& gen) {
   if (it != m.end()) return it->second;
   std::set<std::string>& out = m[gen];
   std::string txt;
-  if (read_file(verif_root() + "/corpus/" + gen + "/MANIFEST.txt", txt)) {
+  if (read_file(corpus_root() + "/" + gen + "/MANIFEST.txt", txt)) {
     std::istringstream is(txt); std::string line;
     while (std::getline(is, line)) { if (line.empty() || line[0] == '#') continue; out.insert(line.substr(0, line.find(' '))); }
   }
@@ -38,7 +38,7 @@ inline const std::set<std::string>& manifest(const std::string& gen) {
 }
 
 inline void corpus_case(const Recipe& rc, const char* gen) {
-  const std::string base = verif_root() + "/corpus/" + gen + "/" + rc.name;
+  const std::string base = corpus_root() + "/" + gen + "/" + rc.name;
   describe(std::string("corpus ") + gen + " image " + rc.name);
   const std::string G = gen, F = rc.fam->name;
   std::string img, want;
@@ -97,7 +97,7 @@ inline void shipped_case(const Shipped& sh) {
   std::string img, want;
   const std::string path = repo_root() + "/" + sh.relpath;
   if (!read_file(path, img)) { checked(); fail("shipped|file-missing", path); return; }
-  if (!read_file(verif_root() + "/corpus/shipped/" + sh.name + ".json", want)) { checked(); fail("shipped|recorded-readout-missing", sh.name); return; }
+  if (!read_file(corpus_root() + "/shipped/" + sh.name + ".json", want)) { checked(); fail("shipped|recorded-readout-missing", sh.name); return; }
   for (int stream = 0; stream < 2; ++stream) {
     const std::string P = stream ? "stream" : "bytes";
     try {
